@@ -1797,3 +1797,170 @@ func isCopyOfLocal(v ssa.Value, a *ssa.Alloc, depth int) bool {
 	st := allocStores(b)
 	return len(st) == 1 && isCopyOfLocal(st[0].Val, a, depth-1)
 }
+
+// rulePublishedNotWritten (C16): a configuration that was published stays as it is. The loaders keep the last
+// published value in a field; nothing may be stored through that field (into its slices' elements, its maps, its
+// nested structs) - the only write allowed is replacing the field as a whole with a freshly decoded value. Calls
+// that hand the field's address to a function that writes through it count as such stores.
+func rulePublishedNotWritten(p *Program, r *Result) {
+	n := 0
+	cfgT := modPath + "/cmds/server/config"
+	for _, fn := range p.UFuncs() {
+		pk := outermost(fn).Pkg
+		if pk == nil || !strings.HasPrefix(pk.Pkg.Path(), modPath+"/cmds/server/loader") || p.isTestFile(fn.Pos()) {
+			continue
+		}
+		// the long-lived copies: fields of type config.ServerConfig of objects this function did not create
+		isKept := func(v ssa.Value) bool {
+			fa, ok := v.(*ssa.FieldAddr)
+			if !ok || !typeIs(fa.Type().(*types.Pointer).Elem(), cfgT, "ServerConfig") {
+				return false
+			}
+			if _, isNamed := fa.Type().(*types.Pointer).Elem().(*types.Named); !isNamed {
+				return false
+			}
+			_, local := fa.X.(*ssa.Alloc)
+			return !local
+		}
+		// reaches: addr is derived from a kept field by field/index/deref steps
+		var reaches func(v ssa.Value, d int) bool
+		reaches = func(v ssa.Value, d int) bool {
+			if d == 0 || v == nil {
+				return false
+			}
+			if isKept(v) {
+				return true
+			}
+			switch x := v.(type) {
+			case *ssa.FieldAddr:
+				return reaches(x.X, d-1)
+			case *ssa.IndexAddr:
+				return reaches(x.X, d-1)
+			case *ssa.UnOp:
+				if x.Op == token.MUL {
+					return reaches(x.X, d-1)
+				}
+			case *ssa.Slice:
+				return reaches(x.X, d-1)
+			case *ssa.Phi:
+				for _, e := range x.Edges {
+					if reaches(e, d-1) {
+						return true
+					}
+				}
+			}
+			return false
+		}
+		ord := 0
+		for _, b := range fn.Blocks {
+			for _, in := range b.Instrs {
+				switch x := in.(type) {
+				case *ssa.Store:
+					if isKept(x.Addr) {
+						n++
+						continue // replacing the kept value as a whole
+					}
+					if reaches(x.Addr, 8) {
+						ord++
+						r.bad("R-FRESHDECODE", fmt.Sprintf("%s:published-written#%d", fnKey(fn), ord), p.Pos(x.Pos()), "a store reaches into the configuration kept from the last publication (it shares its slices and maps with the value that was sent to the consumers): an already published configuration is modified by a later load")
+					}
+				case *ssa.MapUpdate:
+					if reaches(x.Map, 8) {
+						ord++
+						r.bad("R-FRESHDECODE", fmt.Sprintf("%s:published-written#%d", fnKey(fn), ord), p.Pos(x.Pos()), "a map of the configuration kept from the last publication is updated: an already published configuration is modified by a later load")
+					}
+				case ssa.CallInstruction:
+					f := x.Common().StaticCallee()
+					if f == nil || len(f.Blocks) == 0 {
+						continue
+					}
+					for i, a := range x.Common().Args {
+						if i >= len(f.Params) || !reaches(a, 8) {
+							continue
+						}
+						if _, isPtr := a.Type().Underlying().(*types.Pointer); !isPtr {
+							if _, isSl := a.Type().Underlying().(*types.Slice); !isSl {
+								if _, isMap := a.Type().Underlying().(*types.Map); !isMap {
+									continue
+								}
+							}
+						}
+						if writesThroughParam(f, f.Params[i], 3) {
+							ord++
+							r.bad("R-FRESHDECODE", fmt.Sprintf("%s:published-written#%d", fnKey(fn), ord), p.Pos(x.Pos()), "%s writes through its argument, which here is (part of) the configuration kept from the last publication: an already published configuration is modified by a later load", fnKey(f))
+						}
+					}
+				}
+			}
+		}
+	}
+	if n == 0 {
+		r.undecided("R-FRESHDECODE", "published-written", "-", "no loader keeps its last configuration in a field (nothing to check)")
+	} else {
+		r.ok("R-FRESHDECODE", "published-not-written", "-", true, "the loaders write the configuration kept from the last publication only by replacing it as a whole (%d whole-value stores); no store, map update or writing callee reaches into it", n)
+	}
+}
+
+// writesThroughParam: f (or a function of its package it hands the value on to, depth levels) stores into memory
+// reached from parameter pr.
+func writesThroughParam(f *ssa.Function, pr *ssa.Parameter, depth int) bool {
+	if f == nil || depth == 0 || len(f.Blocks) == 0 {
+		return false
+	}
+	var from func(v ssa.Value, d int) bool
+	from = func(v ssa.Value, d int) bool {
+		if d == 0 || v == nil {
+			return false
+		}
+		if v == ssa.Value(pr) {
+			return true
+		}
+		switch x := v.(type) {
+		case *ssa.FieldAddr:
+			return from(x.X, d-1)
+		case *ssa.IndexAddr:
+			return from(x.X, d-1)
+		case *ssa.UnOp:
+			if x.Op == token.MUL {
+				return from(x.X, d-1)
+			}
+		case *ssa.Slice:
+			return from(x.X, d-1)
+		case *ssa.Phi:
+			for _, e := range x.Edges {
+				if from(e, d-1) {
+					return true
+				}
+			}
+		}
+		return false
+	}
+	for _, b := range f.Blocks {
+		for _, in := range b.Instrs {
+			switch x := in.(type) {
+			case *ssa.Store:
+				if x.Addr != ssa.Value(pr) && from(x.Addr, 8) {
+					return true
+				}
+				if _, isPtr := pr.Type().Underlying().(*types.Pointer); isPtr && x.Addr == ssa.Value(pr) {
+					return true
+				}
+			case *ssa.MapUpdate:
+				if from(x.Map, 8) {
+					return true
+				}
+			case ssa.CallInstruction:
+				g := x.Common().StaticCallee()
+				if g == nil || g == f {
+					continue
+				}
+				for i, a := range x.Common().Args {
+					if i < len(g.Params) && from(a, 8) && writesThroughParam(g, g.Params[i], depth-1) {
+						return true
+					}
+				}
+			}
+		}
+	}
+	return false
+}
